@@ -24,7 +24,11 @@ _EVENT_FIELDS = {
     "event_type": "str", "event_sets": "set[EventSet]", "in_event_sets": "set[EventSet]", "_uid": "Optional[str]",
     "_logic_gate_tree": "Optional[ProcessTree]", "_update_since_logic_gate_tree": "bool",
 }
+USES_FS = True
 RECORDS = {
+    # a model file holds the validated value of EventInputsFile (pydantic's model_dump / model_validate are trusted to be inverse)
+    "EventInputsFile": {"fields": {"job_name": "str", "events": "list[EventInput]"}},
+    "FS": {"fields": {"files": "dict[str, EventInputsFile]"}, "mutable": ["files"]},
     "ProcessTree": {"fields": {}},
     "EventSet": {"fields": {}},
     "EventSetCountInput": {"fields": {"eventType": "str", "count": "int"}},
@@ -38,6 +42,20 @@ SPECS = '''
 def cnt(es: EventSet, t: str) -> int:
     return 0
 
+def rep(l: list[EventSetCountInput]) -> list[str]:
+    return [x.eventType for x in l for _ in range(x.count)]
+
+def entries_of(l: list[EventSetCountInput], es: EventSet) -> bool:
+    return (all(l[p].count == cnt(es, l[p].eventType) and l[p].count >= 1 for p in range(len(l)))
+            and all(l[p].eventType != l[q].eventType for p in range(len(l)) for q in range(p + 1, len(l)))
+            and forall(lambda t: implies(cnt(es, t) >= 1, any(l[p].eventType == t for p in range(len(l)))), 'str'))
+
+def lists_of(ls: list[list[EventSetCountInput]], s: set[EventSet]) -> bool:
+    return (forall(lambda es: implies(es in s, any(entries_of(ls[p], es) for p in range(len(ls)))), 'EventSet')
+            and all(exists(lambda es: es in s and entries_of(ls[p], es), 'EventSet') for p in range(len(ls))))
+
+def denotes(ls: list[list[EventSetCountInput]], s: set[EventSet]) -> bool:
+    return forall(lambda es: (es in s) == any(es == EventSet(rep(l)) for l in ls), 'EventSet')
 '''
 
 
@@ -123,6 +141,58 @@ CONTRACTS = {
             "frame": frame("in_event_sets"),
         },
     },
+    # the abstract reading of what contracts/c04_eventset.py proves under the dict view: one entry per distinct type, with its count
+    "EventSet.to_event_set_count_input_list": {"trusted": True, "pure": True, "ensures": {"entries": "entries_of(result, self)"}},
+    "Event.to_event_input": {
+        "ensures": {
+            "type": "result.eventType == self.event_type",
+            # one list of (type, count) entries per successor / predecessor multiset, and no other list
+            "out": "lists_of(result.outgoingEventSets, self.event_sets)",
+            "in": "lists_of(result.incomingEventSets, self.in_event_sets)",
+        },
+    },
+    "events_to_event_inputs": {
+        "loops": {0: {"index": "i", "seq": "vs", "invariant": {
+            "src": "vs == list(events.values())",
+            "count": "len(eventInputs) == i",
+            "each": "all(eventInputs[p].eventType == vs[p].event_type and lists_of(eventInputs[p].outgoingEventSets, vs[p].event_sets) "
+                    "and lists_of(eventInputs[p].incomingEventSets, vs[p].in_event_sets) for p in range(i))",
+        }}},
+        "ensures": {
+            # the model file holds one entry per event, in the order of the dict, with all its successor / predecessor multisets
+            "one_per_event": "len(result) == len(events)",
+            "each": "all(result[p].eventType == list(events.values())[p].event_type "
+                    "and lists_of(result[p].outgoingEventSets, list(events.values())[p].event_sets) "
+                    "and lists_of(result[p].incomingEventSets, list(events.values())[p].in_event_sets) for p in range(len(events)))",
+        },
+    },
+    "save_events_to_file": {
+        "modifies": ["FS.files"],
+        "raises": {"OSError": "not writable(file_path)"},
+        "ensures": {
+            "written": "file_path in fs.files and fs.files[file_path].job_name == job_name and len(fs.files[file_path].events) == len(events)",
+            "each": "all(fs.files[file_path].events[p].eventType == list(events.values())[p].event_type "
+                    "and lists_of(fs.files[file_path].events[p].outgoingEventSets, list(events.values())[p].event_sets) "
+                    "and lists_of(fs.files[file_path].events[p].incomingEventSets, list(events.values())[p].in_event_sets) for p in range(len(events)))",
+            "other_files": "forall(lambda p: implies(p != file_path, (p in fs.files) == (p in old(fs.files)) and implies(p in fs.files, fs.files[p] == old(fs.files)[p])), "
+                           "'str', triggers=[p in fs.files, p in old(fs.files)])",
+        },
+    },
+    "load_events_from_file": {
+        "modifies": ALL,
+        "raises": {"FileNotFoundError": "file_path not in fs.files",
+                   "ValueError": "file_path in fs.files and any(fs.files[file_path].events[p].eventType == fs.files[file_path].events[q].eventType "
+                                 "for p in range(len(fs.files[file_path].events)) for q in range(p + 1, len(fs.files[file_path].events)))"},
+        "ensures": {
+            "name": "result[0] == fs.files[file_path].job_name",
+            "keys": "all(fs.files[file_path].events[p].eventType in result[1] for p in range(len(fs.files[file_path].events))) and "
+                    "all(any(fs.files[file_path].events[p].eventType == k for p in range(len(fs.files[file_path].events))) for k in result[1])",
+            "sets": "all(denotes(fs.files[file_path].events[p].outgoingEventSets, result[1][fs.files[file_path].events[p].eventType].event_sets) and "
+                    "denotes(fs.files[file_path].events[p].incomingEventSets, result[1][fs.files[file_path].events[p].eventType].in_event_sets) "
+                    "for p in range(len(fs.files[file_path].events)))",
+            "coherent": "all(" + INV("result[1][k]") + " for k in result[1])",
+        },
+    },
     "event_inputs_to_events": {
         "modifies": ALL,
         "raises": {"ValueError": "any(eventInputs[p].eventType == eventInputs[q].eventType for p in range(len(eventInputs)) for q in range(p + 1, len(eventInputs)))"},
@@ -137,6 +207,9 @@ CONTRACTS = {
             "in_sets": "all(forall(lambda es: (es in result[eventInputs[p].eventType].in_event_sets) == "
                        "any(es == EventSet([x.eventType for x in l for _ in range(x.count)]) for l in eventInputs[p].incomingEventSets), 'EventSet') "
                        "for p in range(len(eventInputs)))",
+            # the same, with the spec predicate the round-trip lemma uses
+            "denotes": "all(denotes(eventInputs[p].outgoingEventSets, result[eventInputs[p].eventType].event_sets) and "
+                       "denotes(eventInputs[p].incomingEventSets, result[eventInputs[p].eventType].in_event_sets) for p in range(len(eventInputs)))",
             # reloading a model: every event's gate tree is (re)computed from the loaded successor sets
             "coherent": "all(" + INV("result[k]") + " for k in result)",
         },
@@ -178,7 +251,41 @@ CONTRACTS = {
 
 ORDER = ["calculate_logic_gates", "Event._set_uid", "Event.__init__", "Event.logic_gate_tree", "Event.logic_gate_tree.setter",
          "Event.update_event_sets", "Event.update_in_event_sets", "Event.remove_event_type_from_event_sets",
-         "Event.remove_event_type_from_in_event_sets", "event_inputs_to_events"]
+         "Event.remove_event_type_from_in_event_sets", "event_inputs_to_events",
+         "EventSet.to_event_set_count_input_list", "Event.to_event_input", "events_to_event_inputs", "save_events_to_file", "load_events_from_file",
+         # expanding the (type, count) entries of a multiset gives the multiset back ...
+         {"name": "rep_count", "forall": {"l": "list[EventSetCountInput]", "t": "str"},
+          "requires": ["all(l[p].count >= 0 for p in range(len(l)))", "all(l[p].eventType != l[q].eventType for p in range(len(l)) for q in range(p + 1, len(l)))"],
+          "ensures": "all(implies(l[p].eventType == t, count(rep(l), t) == l[p].count) for p in range(len(l))) and "
+                     "implies(not any(l[p].eventType == t for p in range(len(l))), count(rep(l), t) == 0)",
+          "induction": "l", "triggers": ["count(rep(l), t)"],
+          "hints": ["len(l) == 0 or l == l[:-1] + [l[-1]]",
+                    "len(l) == 0 or rep(l) == rep(l[:-1]) + rep([l[-1]])",
+                    "len(l) == 0 or count(rep(l), t) == count(rep(l[:-1]), t) + count(rep([l[-1]]), t)",
+                    "len(l) == 0 or count(rep([l[-1]]), t) == (l[-1].count if l[-1].eventType == t else 0)",
+                    "len(l) == 0 or all(l[:-1][p] is l[p] for p in range(len(l) - 1))",
+                    "use rep_count(l[:-1], t) if len(l) >= 1 else True"]},
+         {"name": "entries_denote", "forall": {"l": "list[EventSetCountInput]", "es": "EventSet"},
+          "requires": ["entries_of(l, es)"], "ensures": "EventSet(rep(l)) == es",
+          "hints": ["forall(lambda t: cnt(EventSet(rep(l)), t) == cnt(es, t), 'str')", "same_multiset(EventSet(rep(l)), es)"]},
+         # ... so what is written for an event denotes exactly its successor / predecessor multisets, which is what the loader reads
+         {"name": "written_lists_denote", "forall": {"ls": "list[list[EventSetCountInput]]", "s": "set[EventSet]"},
+          "requires": ["lists_of(ls, s)"], "ensures": "denotes(ls, s)"},
+         {"name": "same_denotation_same_sets", "forall": {"ls": "list[list[EventSetCountInput]]", "s1": "set[EventSet]", "s2": "set[EventSet]"},
+          "requires": ["denotes(ls, s1)", "denotes(ls, s2)"], "ensures": "s1 == s2"},
+         # "The model file round-trips every event, successor/predecessor set and count without loss": I written from the events E
+         # (postcondition of events_to_event_inputs), R loaded from I (postcondition of event_inputs_to_events)
+         {"name": "model_round_trip", "forall": {"E": "dict[str, Event]", "I": "list[EventInput]", "R": "dict[str, Event]"},
+          "requires": ["all(E[k].event_type == k for k in E)",
+                       "len(I) == len(E)",
+                       "all(I[p].eventType == list(E.values())[p].event_type and lists_of(I[p].outgoingEventSets, list(E.values())[p].event_sets) "
+                       "and lists_of(I[p].incomingEventSets, list(E.values())[p].in_event_sets) for p in range(len(E)))",
+                       "all(I[p].eventType in R for p in range(len(I)))",
+                       "all(any(I[p].eventType == k for p in range(len(I))) for k in R)",
+                       "all(denotes(I[p].outgoingEventSets, R[I[p].eventType].event_sets) and denotes(I[p].incomingEventSets, R[I[p].eventType].in_event_sets) "
+                       "for p in range(len(I)))"],
+          "ensures": "all(k in R and R[k].event_sets == E[k].event_sets and R[k].in_event_sets == E[k].in_event_sets for k in E) and all(k in E for k in R)"},
+         ]
 
 
 def setup(V):
@@ -202,6 +309,29 @@ def setup(V):
     xs = z3.Const("esxs", V.sort(sty))
     V.pre.ax("EventSet.init", z3.ForAll([xs, t], cnt(mk(xs), t) == V.pre.seqf(sty, "count")(xs, t), patterns=[cnt(mk(xs), t)]))
     V.trusted_used.add("EventSet(events) denotes the multiset of the list `events` (contract of EventSet.__init__; validated at run time)")
+
+    V.kw_ctor_records = {"EventInput", "EventInputsFile"}
+    EIF = V.tenv.records["EventInputsFile"]
+
+    def m_model_dump(self, obj, n, st):
+        self.trusted_used.add("EventInputsFile.model_dump() / model_validate(): the JSON value of a model file is identified with the validated model object")
+        return obj
+    V.methods["EventInputsFile.model_dump"] = m_model_dump
+
+    def b_model_validate(self, n, st):
+        return self.coerce(self.expr(n.args[0], st), EIF)
+    V.builtins["EventInputsFile.model_validate"] = b_model_validate
+
+    def b_count(self, n, st):
+        xs_ = self.as_seq(self.expr(n.args[0], st), st)
+        x_ = self.coerce(self.expr(n.args[1], st), xs_.ty.elem)
+        return Val(self.pre.seqf(xs_.ty, "count")(xs_.t, x_.t), INT)
+    V.builtins["count"] = b_count
+
+    def b_same_multiset(self, n, st):
+        a_, b_ = self.coerce(self.expr(n.args[0], st), ES), self.coerce(self.expr(n.args[1], st), ES)
+        return Val(seteq(a_.t, b_.t), BOOL)
+    V.builtins["same_multiset"] = b_same_multiset
 
     def es_ctor(self, n, st):
         arg = self.coerce(self.as_seq(self.expr(n.args[0], st), st), sty)
@@ -230,6 +360,13 @@ def native_env(nat):
     def cnt(es, t):
         return es.get(t, 0)
 
+    def same_multiset(a, b):
+        return a == b
+
+    def writable(path):
+        import os
+        return os.path.isdir(os.path.dirname(path))
+
     def tree_repr(t):
         return None if t is None else repr(t)
 
@@ -252,7 +389,7 @@ def native_env(nat):
 
         def __hash__(self):
             return hash(tree_repr(self.t))
-    return {"cnt": cnt, "inv": inv, "calculate_logic_gates": clg, "EventSet": ev.EventSet, "_Tree": _Tree}
+    return {"cnt": cnt, "same_multiset": same_multiset, "writable": writable, "inv": inv, "calculate_logic_gates": clg, "EventSet": ev.EventSet, "_Tree": _Tree}
 
 
 NATIVE_CALL = {
@@ -316,6 +453,12 @@ def _materialise(nat, desc):
             out[k] = [ev.EventInput(eventType=x["eventType"],
                                     outgoingEventSets=[[ev.EventSetCountInput(eventType=t, count=c) for t, c in l] for l in x["out"]],
                                     incomingEventSets=[[ev.EventSetCountInput(eventType=t, count=c) for t, c in l] for l in x["in"]]) for x in v]
+        elif k == "events":
+            out[k] = {d["type"]: mk_event(nat, d) for d in v} if isinstance(v, list) and v and isinstance(v[0], dict) or v == [] and desc.get("_model") else v
+        elif k == "_model":
+            continue
+        elif k == "self_es":
+            out["self"] = ev.EventSet(v)
         elif k == "value":
             out[k] = None if v is None else ld.calculate_logic_gates({ev.EventSet(x) for x in v})
         else:
@@ -346,8 +489,112 @@ def _small_inputs(nat):
     yield _materialise(nat, {"eventInputs": [{"eventType": "X", "out": [], "in": []}, {"eventType": "X", "out": [], "in": []}]})
 
 
+def _gen_model(nat, rng, n):
+    for _ in range(n):
+        names = rng.sample(["A", "B", "C", "D", "E"], rng.randrange(0, 4))
+        yield _materialise(nat, {"events": [_rand_event_desc(rng, nm) for nm in names], "_model": True})
+
+
+class _FSView:
+    """fs.files natively: every model file under the scratch root, validated into EventInputsFile"""
+    __slots__ = ("root",)          # nothing but the path: the universe walk of the runtime checker follows instance attributes
+
+    def __init__(self, root, nat):
+        self.root = root
+
+    @property
+    def files(self):
+        import importlib
+        import json
+        import os
+        ev = importlib.import_module("tel2puml.events")
+        out = {}
+        for dp, _d, fns in os.walk(self.root):
+            for fn in fns:
+                out[f"{dp}/{fn}"] = ev.EventInputsFile.model_validate(json.load(open(f"{dp}/{fn}")))
+        return out
+
+    def __deepcopy__(self, memo):
+        snap = _FSSnap()
+        snap.files = self.files
+        return snap
+
+    def __universe__(self):
+        return list(self.files)
+
+
+class _FSSnap:
+    files = None
+
+
+_ROOTS = []
+
+
+def _scratch():
+    import atexit
+    import os
+    import shutil
+    import tempfile
+    root = tempfile.mkdtemp(prefix="vc04_", dir="/dev/shm" if os.path.isdir("/dev/shm") else None)
+    _ROOTS.append(root)
+    if len(_ROOTS) == 1:
+        atexit.register(lambda: [shutil.rmtree(r, ignore_errors=True) for r in _ROOTS])
+    return root
+
+
+def native_call_args(nat, fname, args):
+    return {k: v for k, v in args.items() if k != "fs"}
+
+
+def _model_file_case(nat, desc):
+    """desc: {"model_file": "save" | "load", "events": [event descriptions], "existing": {relative path: [event descriptions]}, "path": relative path}"""
+    import json
+    import os
+    ev, _ = _mod(nat)
+    root = _scratch()
+    for rel, evs in desc.get("existing", {}).items():
+        os.makedirs(os.path.dirname(f"{root}/{rel}"), exist_ok=True)
+        raw = ev.events_to_raw_input({d["type"]: mk_event(nat, d) for d in evs})
+        if desc.get("dup") and raw:
+            raw.append(raw[0])
+        json.dump({"job_name": "job " + rel, "events": raw}, open(f"{root}/{rel}", "w"))
+    out = _Case()
+    out.desc = desc
+    out["fs"] = _FSView(root, nat)
+    out["file_path"] = f"{root}/{desc['path']}"
+    if desc["model_file"] == "save":
+        out["job_name"] = desc.get("job_name", "wf one")
+        out["events"] = {d["type"]: mk_event(nat, d) for d in desc["events"]}
+    return out
+
+
+def _gen_save_file(nat, rng, n):
+    for _ in range(n):
+        names = rng.sample(["A", "B", "C", "D", "E"], rng.randrange(0, 4))
+        yield _model_file_case(nat, {"model_file": "save", "events": [_rand_event_desc(rng, nm) for nm in names],
+                                     "existing": {"models/old_model.json": [_rand_event_desc(rng, "Z")], "models/other.json": []},
+                                     "path": rng.choice(["models/new_model.json", "models/old_model.json", "missing_dir/m.json"])})
+
+
+def _gen_load_file(nat, rng, n):
+    for _ in range(n):
+        names = rng.sample(["A", "B", "C", "D", "E"], rng.randrange(0, 4))
+        yield _model_file_case(nat, {"model_file": "load", "existing": {"models/m.json": [_rand_event_desc(rng, nm) for nm in names]},
+                                     "dup": rng.random() < 0.1, "path": "models/m.json" if rng.random() > 0.1 else "models/none.json"})
+
+
+def _gen_es(nat, rng, n):
+    for _ in range(n):
+        yield _materialise(nat, {"self_es": [rng.choice(["A", "B", "C"]) for _ in range(rng.randrange(0, 6))]})
+
+
 _TYPES = ["A", "B", "C", "D"]
 GEN = {
+    "EventSet.to_event_set_count_input_list": _gen_es,
+    "Event.to_event_input": _gen_method(lambda rng: {}),
+    "events_to_event_inputs": _gen_model,
+    "save_events_to_file": _gen_save_file,
+    "load_events_from_file": _gen_load_file,
     "Event.logic_gate_tree": _gen_method(lambda rng: {}),
     "Event.logic_gate_tree.setter": _gen_method(lambda rng: {"value": rng.choice([None, [["A"], ["B"]], [["A", "B"]]])}),
     "Event.update_event_sets": _gen_method(lambda rng: {"events": [rng.choice(_TYPES) for _ in range(rng.randrange(0, 4))]}),
@@ -366,7 +613,7 @@ class _Enc(dict):
 
 class _Dec(dict):
     def __missing__(self, k):
-        return lambda nat, e: _materialise(nat, e)
+        return lambda nat, e: _model_file_case(nat, e) if isinstance(e, dict) and "model_file" in e else _materialise(nat, e)
 
 
 ENCODE = _Enc()
